@@ -190,7 +190,9 @@ func parseNameLabels(name string, labels Labels) {
 		}
 	}
 	parts := strings.Split(name, "/")
-	labels["name"] = parts[0]
+	if parts[0] != "" {
+		labels["name"] = parts[0]
+	}
 	for i, sub := range parts[1:] {
 		equals := strings.Index(sub, "=")
 		var key string
@@ -199,7 +201,11 @@ func parseNameLabels(name string, labels Labels) {
 		} else {
 			key = fmt.Sprintf("sub%d", i+1)
 		}
-		labels[key] = sub
+		// As for file labels, an empty value means "no such label"; the index
+		// and the query language rely on label values being non-empty.
+		if sub != "" {
+			labels[key] = sub
+		}
 	}
 }
 
